@@ -37,7 +37,7 @@ class Outcome:
 
 class Part:
     def __init__(self, name, oracle, strategy=None, n=0, enumerate_fn=None, shrink=True, sharded=True,
-                 exhaustive=False, describe=None, setup=None):
+                 exhaustive=False, describe=None, setup=None, distinct_by_construction=True):
         self.name = name
         self.oracle = oracle
         self.strategy = strategy
@@ -46,6 +46,7 @@ class Part:
         self.shrink = shrink
         self.sharded = sharded          # strategy parts: split n over shards (different seeds)
         self.exhaustive = exhaustive    # enumeration covers its finite domain completely
+        self.distinct_by_construction = distinct_by_construction   # False: enumerated cases may coincide -> hashed
         self.describe = describe        # optional case -> short json-able sample rendering
         self.setup = setup              # optional callable run once per process before the part
 
@@ -163,7 +164,7 @@ def evaluate(part, case, stats, sample_every):
         stats.classes[c] = stats.classes.get(c, 0) + 1
     if out.nontrivial:
         stats.nontrivial += 1
-        if part.enumerate_fn is not None:
+        if part.enumerate_fn is not None and part.distinct_by_construction:
             stats.distinct_extra += 1
         elif len(stats.nontrivial_hashes) < MAX_HASHES:
             stats.nontrivial_hashes.add(case_hash(case))
